@@ -311,7 +311,7 @@ def plan_stage(ctx):
     ctx.count("plan_pairs_hypothesis_fails", len(bad))
     # where the hypothesis fails: does the real planner still reach the count in a full feasible year?
     ctx.rng.shuffle(bad)
-    todo = bad[: ctx.pick(250, 4000)]
+    todo = bad[: ctx.pick(150, 2000)]
     if ctx.quick and not any(m == [2, 5, 10] and f == 4 for m, f, _ in todo):
         todo += [(m, f, p) for m, f, p in bad if m == [2, 5, 10] and f == 4]
     reached = short = 0
@@ -320,13 +320,13 @@ def plan_stage(ctx):
         cases.append(feasible_year_case(months, f, bad_year=any(p[2] != 2023 for p in pl)))
     ok_sample = []
     rng = ctx.rng
-    for _ in range(ctx.pick(60, 600)):
+    for _ in range(ctx.pick(40, 400)):
         months = month_subset(rng)
         cases.append(feasible_year_case(months, rng.randint(1, 24)))
     metas = run_loop_cases(ctx, cases, feasible=True, tag="plan")
-    for (case, static, trace) in metas:
+    for (case, static, summ) in metas:
         st = static[0]
-        got = dict((yy, n) for yy, n in trace[-1]["planners"][0]["done"]).get(2024, 0) if not trace[-1]["crash"] else None
+        got = dict((yy, n) for yy, n in summ["final_done"][1]).get(2024, 0) if not summ["crash"] else None
         if got == st["rs"]:
             reached += 1
         else:
@@ -350,33 +350,43 @@ def feasible_year_case(months, f, bad_year=False):
 # ------------------------------------------------------------------------------------------------
 # correspondence over day loops
 # ------------------------------------------------------------------------------------------------
-def run_loop_cases(ctx, cases, feasible=False, tag="loop"):
+def run_loop_cases(ctx, cases, feasible=False, tag="loop", chunk=40):
+    """implementation + model + oracle for every case, in chunks (traces of multi-year loops are large and
+    are not kept); returns [(case, static, summary)] with summary = first issue day, dates with a completed
+    survey, final counters per site, crash"""
     from harness.adapters import sched as A
 
-    batches, metas = [], []
-    for case in cases:
-        forced = case.get("forced")
-        static, trace = A.run_routine(case, forced=forced)
-        req, exp = SC.lines_routine(case, static, trace)
-        batches.append(req)
-        metas.append((case, static, trace, req, exp))
-    models = SC.run_model(batches)
     out = []
-    for (case, static, trace, req, exp), mod in zip(metas, models):
-        ctx.evaluations += 1
-        pub = {k: v for k, v in case.items()}
-        ok = SC.compare(ctx, "planner:" + case["kind"], pub, req, exp, mod)
-        ctx.count(f"corr:{tag}:{case['kind']}" + (":ok" if ok else ":DIFF"))
-        ctx.traces += 1
-        ctx.count("days", len(trace))
-        oracle_trace(ctx, pub, static, trace, feasible=feasible or case.get("_feasible", False))
-        k = nontrivial_key(case, static, trace)
-        if k is not None:
-            ctx.nontrivial.add(k)
-        # hypothesis hit rates of the partial theorems
-        ctx.count("hyp:plan_hypothesis_sites", sum(1 for st in static if st["rs"] and plan_hypothesis(st)))
-        ctx.count("hyp:planner_sites", sum(1 for st in static if st["rs"]))
-        out.append((case, static, trace))
+    for a in range(0, len(cases), chunk):
+        batches, metas = [], []
+        for case in cases[a:a + chunk]:
+            static, trace = A.run_routine(case, forced=case.get("forced"))
+            req, exp = SC.lines_routine(case, static, trace)
+            batches.append(req)
+            metas.append((case, static, trace, req, exp))
+        models = SC.run_model(batches)
+        for (case, static, trace, req, exp), mod in zip(metas, models):
+            ctx.evaluations += 1
+            pub = {k: v for k, v in case.items()}
+            ok = SC.compare(ctx, "planner:" + case["kind"], pub, req, exp, mod)
+            ctx.count(f"corr:{tag}:{case['kind']}" + (":ok" if ok else ":DIFF"))
+            ctx.traces += 1
+            ctx.count("days", len(trace))
+            oracle_trace(ctx, pub, static, trace, feasible=feasible or case.get("_feasible", False))
+            k = nontrivial_key(case, static, trace)
+            if k is not None:
+                ctx.nontrivial.add(k)
+            # hypothesis hit rates of the partial theorems
+            ctx.count("hyp:plan_hypothesis_sites", sum(1 for st in static if st["rs"] and plan_hypothesis(st)))
+            ctx.count("hyp:planner_sites", sum(1 for st in static if st["rs"]))
+            crash = trace[-1]["crash"] if trace else None
+            last = trace[-1] if (trace and not crash) else (trace[-2] if len(trace) > 1 else None)
+            out.append((case, static, {
+                "first_issue": next((r["date"] for r in trace if r.get("issued")), None),
+                "complete_dates": [r["date"] for r in trace if any(o[1] == "C" for o in r.get("outcomes") or [])][:50],
+                "final_done": None if last is None else {p["site"]: p["done"] for p in last["planners"]},
+                "crash": crash}))
+        del batches, metas, models
     return out
 
 
@@ -433,7 +443,7 @@ def witnesses(ctx):
           "crews": 1, "cap": 1, "T": 0, "hours": 8, "weather": [], "forced": [],
           "sites": [site(1, 12, list(range(1, 13)), [2025, 2026])]}
     metas = run_loop_cases(ctx, [w1, w2, w3, w4, w5], tag="witness")
-    dates3 = [rec["date"] for rec in metas[2][2] if any(o[1] == "C" for o in rec.get("outcomes") or [])]
+    dates3 = metas[2][2]["complete_dates"]
     ctx.extra["witness_F12_survey_dates"] = dates3
     # C06_feasible_counterexample: the plan literal of the Lean witness is what the real generator returns
     lit = [[2, 1], [2, 23], [5, 17], [11, 8]]
@@ -445,7 +455,7 @@ def witnesses(ctx):
     w6["end"] = [2025, 12, 31]
     w6["ndays"] = 731
     m6 = run_loop_cases(ctx, [w6], feasible=True, tag="witness")
-    f15 = m6[0][2][-1]["planners"][0]["done"] if not m6[0][2][-1]["crash"] else None
+    f15 = m6[0][2]["final_done"][1] if not m6[0][2]["crash"] else None
     ctx.extra["witness_F15_done_per_year"] = f15
     ctx.sample({"witness": "F12 January-only, five sites, one survey a day", "survey_dates": dates3})
     ctx.sample({"witness": "F15 months [2,5,10] x 4", "plan": real, "done_per_year": f15})
@@ -463,15 +473,15 @@ def run(ctx):
     rng = ctx.rng
     witnesses(ctx)
     run_loop_cases(ctx, boundary_cases(), tag="boundary")
-    cases = [loop_case(rng) for _ in range(ctx.pick(70, 900))]
-    cases += [loop_case(rng, stationary=True) for _ in range(ctx.pick(40, 500))]
+    cases = [loop_case(rng) for _ in range(ctx.pick(45, 450))]
+    cases += [loop_case(rng, stationary=True) for _ in range(ctx.pick(30, 300))]
     metas = run_loop_cases(ctx, cases)
-    feas = [loop_case(rng, feasible=True) for _ in range(ctx.pick(30, 400))]
+    feas = [loop_case(rng, feasible=True) for _ in range(ctx.pick(18, 200))]
     run_loop_cases(ctx, feas, feasible=True, tag="feasible")
     plan_stage(ctx)
-    for (case, static, trace) in metas[:2]:
+    for (case, static, summ) in metas[:2]:
         ctx.sample({"case": {k: (v if k != "forced" else (v or [])[:6]) for k, v in case.items()},
-                    "first_issue_day": next((r["date"] for r in trace if r.get("issued")), None)})
+                    "first_issue_day": summ["first_issue"], "final_done": summ["final_done"]})
     wholerun_oracle(ctx)
     hp, hs = ctx.counts.get("hyp:plan_hypothesis_sites", 0), ctx.counts.get("hyp:planner_sites", 0)
     ctx.extra["hypothesis_hit_rate"] = {"plan_hypothesis_of_all_done_when_feasible": [hp, hs]}
